@@ -54,6 +54,7 @@ var vpR struct {
 	freeRun  bool
 	threaded bool
 	race     bool
+	tokens   []string
 	kill     chan struct{}
 	root     context.Context
 	cancel   context.CancelFunc
@@ -73,6 +74,7 @@ func vpReset(in *vpReplayFile) {
 	vpR.out = vpOutcome{Harness: in.Harness}
 	vpR.start = time.Now()
 	vpR.waiters = map[string][]chan struct{}{}
+	vpR.tokens = nil
 	vpR.arrived = make(chan struct{}, 1024)
 	vpR.freeRun = !in.Threaded || in.Race
 	vpR.race = in.Race
@@ -156,10 +158,20 @@ func vpRec(name string) []byte {
 		name = fmt.Sprintf("%s_%d", name, k)
 	}
 	if txt, ok := vpR.in.Records["rec_"+name]; ok {
+		// the executor's tokens are "uuid-k" (k-th token generated); substitute the real ones noted by the harness
+		for k := len(vpR.tokens); k >= 1; k-- {
+			txt = strings.ReplaceAll(txt, fmt.Sprintf("uuid-%d", k), vpR.tokens[k-1])
+		}
 		return []byte(txt)
 	}
 	return []byte(`{"id":"someone-else","token":"tok-x","priority":0}`)
 }
+func vpNoteToken(tok string) {
+	vpR.mu.Lock()
+	vpR.tokens = append(vpR.tokens, tok)
+	vpR.mu.Unlock()
+}
+
 func vpRecMk(id, tok string, prio int) []byte {
 	b, _ := json.Marshal(leadershipPayload{ID: id, Token: tok, Priority: prio})
 	return b
